@@ -48,6 +48,8 @@ Theorem references_exist : forall prog metas nstr nbuiltin,
        exists m, find_rmeta metas (Z.to_nat (r_w0 i)) = Some m /\
          exists a' j, a = S a' /\ nth_error prog a' = Some j /\
            ((r_op j = BYTECODE_GLOBAL_VEC /\ r_w0 j = rm_nfree m) \/
-            (r_op j = BYTECODE_COPYGLOB /\ Z.to_nat (r_w0 i) = owner_upto metas a))).
+            (r_op j = BYTECODE_COPYGLOB /\
+             (* the running function itself, or another emission of it: same environment size, same opcodes *)
+             self_or_copy prog metas (Z.to_nat (r_w0 i)) (owner_upto metas a) = true))).
 Proof. exact Refs.check_refs_sound. Qed.
 Print Assumptions references_exist.
